@@ -128,7 +128,7 @@ class Excel:
             return [[self._fill_cell(Cell(first.title, column_index, row))
                      for column_index in range(first.column, second.column + 1)]
                     for row in range(len(self._data[first.title]))]
-        elif isinstance(first.row, int) and first.row >= 0 and second.row >= 0:
+        elif isinstance(first.row, int) and isinstance(second.row, int) and first.row >= 0 and second.row >= 0:
             return self._get_matrix(first, second)
         else:
             raise E2PyclParserException('Invalid cell coordinates')
